@@ -1088,6 +1088,13 @@ func (r *Raft) sendAppendEntries(id string, address string, round *verificationR
 		return
 	}
 
+	// Ignore the response if the request was sent in a previous term. This node may have lost
+	// the leadership and been elected again since then and the response says nothing about the
+	// log entries it has sent, or the leadership it has held, in the current term.
+	if request.Term != r.currentTerm {
+		return
+	}
+
 	// If the majority of cluster acknowledges the request, this node is a legitimate leader.
 	// Try to apply pending read-only operations.
 	// Only the responses of voting members count towards the quorum.
